@@ -1121,6 +1121,9 @@ func (tee TemplElementExpression) ChildNodes() []Node {
 func (tee TemplElementExpression) IsNode() bool { return true }
 func (tee TemplElementExpression) Write(w io.Writer, indent int) error {
 	source, err := format.Source([]byte(tee.Expression.Value))
+	// Code that gofmt does not format is written as it stands: lines that are indented here
+	// without having been normalised first would move further right with every run.
+	verbatim := err != nil
 	if err != nil {
 		source = []byte(tee.Expression.Value)
 	}
@@ -1141,7 +1144,7 @@ func (tee TemplElementExpression) Write(w io.Writer, indent int) error {
 		if _, err := io.WriteString(w, "\n"); err != nil {
 			return err
 		}
-		if string(sourceLines[i]) != string(reformattedSourceLines[i]) {
+		if verbatim || string(sourceLines[i]) != string(reformattedSourceLines[i]) {
 			if _, err := w.Write(sourceLines[i]); err != nil {
 				return err
 			}
